@@ -57,6 +57,7 @@ struct RunObs {
     success_v: u64,
     midframe_boundaries: u64,
     borrowed_checked: u64,
+    empty_feeds: u64,
 }
 
 fn mk_replay(n: usize, text: &str, stream: &[u8], chunks: &[usize], use_ref: bool, prop: &str) -> Vec<(String, String)> {
@@ -105,6 +106,23 @@ fn c08_run<const N: usize>(shape: &Shape, stream: &[u8], chunks: &[usize], use_r
             obs.midframe_boundaries += 1;
         }
         off += cl;
+        if cl == 0 {
+            // a feed call that carries no bytes: nothing to report, nothing may change
+            let rec = do_feed::<N>(&mut acc, chunk, use_ref).map_err(|m| ("C08:remainder-not-suffix".to_string(), m))?;
+            obs.calls += 1;
+            obs.empty_feeds += 1;
+            let _ = take_strs();
+            if rec.variant != Variant::Consumed {
+                return Err(("C08:unexpected-result-without-terminator".into(), format!("an empty feed call (pending {} of capacity {}) gave {:?}", pending.len(), N, rec.variant)));
+            }
+            if acc.verif_buffered() != &pending[..] {
+                return Err((
+                    "C08:buffered-state-differs-from-model".into(),
+                    format!("after an empty feed call the accumulator buffers {} but the model expects {}", hexs(acc.verif_buffered()), hexs(&pending)),
+                ));
+            }
+            continue;
+        }
         let mut window = chunk;
         let mut calls = 0usize;
         while !window.is_empty() {
@@ -213,6 +231,21 @@ fn c09_run<const N: usize>(shape: &Shape, stream: &[u8], chunks: &[usize], use_r
         let mut woff = chunk_off;
         let mut n_calls = 0usize;
         let mut last_unshortened = false;
+        if cl == 0 {
+            // a feed call that carries no bytes must not disturb the frame being collected
+            let before = acc.verif_buffered().len();
+            let rec = do_feed::<N>(&mut acc, chunk, use_ref).map_err(|m| ("C09:remainder-not-suffix".to_string(), m))?;
+            obs.calls += 1;
+            obs.empty_feeds += 1;
+            let _ = take_strs();
+            if rec.variant != Variant::Consumed || acc.verif_buffered().len() != before {
+                return Err((
+                    "C09:empty-feed-changes-state".into(),
+                    format!("an empty feed call gave {:?} and changed the buffered length from {} to {}", rec.variant, before, acc.verif_buffered().len()),
+                ));
+            }
+            continue;
+        }
         while !window.is_empty() {
             n_calls += 1;
             if n_calls > 2 * cl + 2 {
@@ -467,7 +500,12 @@ fn random_chunks(rng: &mut Rng, len: usize) -> Vec<usize> {
     let mut out = Vec::new();
     let mut left = len;
     let style = rng.below(4);
+    // one run in three also makes feed calls that carry no bytes (a read that returned nothing)
+    let empties = rng.chance(1, 3);
     while left > 0 {
+        if empties && rng.chance(1, 4) {
+            out.push(0);
+        }
         let c = match style {
             0 => 1,
             1 => rng.range(1, 3.min(left)),
@@ -476,6 +514,19 @@ fn random_chunks(rng: &mut Rng, len: usize) -> Vec<usize> {
         };
         out.push(c);
         left -= c;
+    }
+    if empties && rng.chance(1, 2) {
+        out.push(0);
+    }
+    out
+}
+
+/// The same chunking with an empty feed call before, between and after all chunks.
+fn with_empty_calls(chunks: &[usize]) -> Vec<usize> {
+    let mut out = vec![0];
+    for c in chunks {
+        out.push(*c);
+        out.push(0);
     }
     out
 }
@@ -590,6 +641,7 @@ fn c08_one(t: &mut Tctx, n: usize, shape: &Shape, text: &str, stream: &[u8], chu
     t.st.add("result_success", obs.success_v);
     t.st.add("chunk_boundaries_mid_frame", obs.midframe_boundaries);
     t.st.add("borrowed_ranges_checked", obs.borrowed_checked);
+    t.st.add("empty_feed_calls", obs.empty_feeds);
     // distinct (position, pending) states visited = distinct prefixes at chunk boundaries
     let sf = fp(stream);
     let mut off = 0;
@@ -650,7 +702,9 @@ pub fn run_c08(cfg: &Cfg) -> Report {
                 let chunks = chunks_from_mask(l, mask);
                 let use_ref = mask % 2 == 1;
                 t.st.nontrivial(fp_mix(fp(&st.bytes), mask ^ ((n as u64) << 40)));
-                if !c08_one(t, n, &shape, &text, &st.bytes, &chunks, use_ref, &expected, &mut states) {
+                if !c08_one(t, n, &shape, &text, &st.bytes, &chunks, use_ref, &expected, &mut states)
+                    || !c08_one(t, n, &shape, &text, &st.bytes, &with_empty_calls(&chunks), use_ref, &expected, &mut states)
+                {
                     ok = false;
                     break;
                 }
@@ -751,7 +805,7 @@ pub fn run_c08(cfg: &Cfg) -> Report {
     rep.extra.insert("states".into(), J::i(st));
     rep.extra.insert("transitions".into(), J::i(tr));
     rep.rule = "cases = (capacity N, target type, stream, chunking, feed|feed_ref): streams over {valid frames, corrupt COBS, valid COBS with bad payload, empty frames, terminated garbage, \
-                exact-fit/one-short garbage, unterminated tail} in which every segment and the tail fit N; ALL 2^(len-1) chunkings of streams up to 12 (quick) / 16 (thorough) bytes, all \
+                exact-fit/one-short garbage, unterminated tail} in which every segment and the tail fit N; ALL 2^(len-1) chunkings of streams up to 12 (quick) / 16 (thorough) bytes - each also with an empty feed call before, between and after all chunks -, all \
                 O(len^2) single transitions of streams up to 64 bytes, random chunkings of streams up to 4 KiB; N in {4,5,6,8,12,16,32,64,256,4096}; every feed call checked online against a \
                 sequential model (pending bytes) with the verif_buffered hook; borrowed target type through feed_ref. Non-trivial = every (stream, chunking); distinct = fingerprint of (stream, chunking, N)."
         .into();
@@ -766,6 +820,7 @@ pub fn run_c08(cfg: &Cfg) -> Report {
     rep.floor("chunkings_enumerated", 1000);
     rep.floor("transitions_enumerated", 100);
     rep.floor("borrowed_target_streams", 10);
+    rep.floor("empty_feed_calls", 100);
     rep
 }
 
@@ -778,6 +833,7 @@ fn c09_one(t: &mut Tctx, n: usize, shape: &Shape, text: &str, stream: &[u8], chu
     t.st.add("result_deser_error", obs.deser_v);
     t.st.add("result_success", obs.success_v);
     t.st.add("result_overfull", obs.overfull_v);
+    t.st.add("empty_feed_calls", obs.empty_feeds);
     match r {
         Ok(Ok(())) => true,
         Ok(Err((sig, msg))) => {
@@ -855,7 +911,9 @@ pub fn run_c09(cfg: &Cfg) -> Report {
             for mask in 0..total {
                 let chunks = chunks_from_mask(l, mask);
                 t.st.nontrivial(fp_mix(fp(&st.bytes), mask ^ ((n as u64) << 40)));
-                if !c09_one(t, n, &shape, &text, &st.bytes, &chunks, mask % 2 == 1, &valid) {
+                if !c09_one(t, n, &shape, &text, &st.bytes, &chunks, mask % 2 == 1, &valid)
+                    || !c09_one(t, n, &shape, &text, &st.bytes, &with_empty_calls(&chunks), mask % 2 == 1, &valid)
+                {
                     ok = false;
                     break;
                 }
@@ -963,7 +1021,7 @@ pub fn run_c09(cfg: &Cfg) -> Report {
     });
     rep.stats.merge(s);
     rep.rule = "cases = (capacity N, target, stream, chunking): streams mixing valid frames, corrupt frames, garbage, empty frames, segments of length N+1..3N and random bytes; N in {1,2,3,4,5,6,8,16}; \
-                frames steered to lengths N-1, N and N+1; ALL chunkings of streams up to 12 (quick) / 16 (thorough) bytes, random chunkings beyond. Monitors per call: no panic, \
+                frames steered to lengths N-1, N and N+1; ALL chunkings of streams up to 12 (quick) / 16 (thorough) bytes (each also with empty feed calls interleaved), random chunkings beyond (one in three with empty calls). Monitors per call: no panic, an empty call changes nothing, \
                 remainder is a suffix of the window, hook: buffered <= N and == 0 after any call that consumed a zero byte, no zero byte swallowed by Consumed, bounded progress (<= 2l+2 calls per \
                 l-byte chunk, never two unshortened windows in a row); per stream: every over-long segment has an OverFull at or before its sentinel, every well-formed fitting frame that follows a zero byte is delivered."
         .into();
@@ -980,6 +1038,7 @@ pub fn run_c09(cfg: &Cfg) -> Report {
     rep.floor("steered_frame_one_less_than_capacity", 5);
     rep.floor("steered_frame_one_more_than_capacity", 5);
     rep.floor("capacity_1", 1);
+    rep.floor("empty_feed_calls", 100);
     rep
 }
 
